@@ -12,9 +12,9 @@ FUNC = [("join_path", "util.join_path"), ("partition_on_columns", "writer.partit
         ("make_metadata", "writer.make_metadata"), ("write.", "writer.write")]
 
 
-def p_paths(ctx):
+def p_paths(ctx, families=None):
     ctx.assumptions += [a for a in c08_paths.ASSUMED if a not in ctx.assumptions]
-    for res in c08_paths.check(ctx, 10000 if ctx.tier == "quick" else 60000):
+    for res in c08_paths.check(ctx, 10000 if ctx.tier == "quick" else 60000, families):
         for name in res.order:
             st = res.status(name)
             e = next((x for x in res.d[name] if x[0] == st), res.d[name][0])
@@ -32,3 +32,12 @@ def p_paths(ctx):
             if st == REFUTED:
                 ctx.violation(name, {"function": fn, "model": e[1], "solver_output": str(e[1])[:600], "snippet": None}, False,
                               what=(e[4] or "")[:200])
+
+
+def p_paths_c08(ctx):
+    """C08: every family of c08_paths + the conventions shared with the other readers of a path (contracts/c14_paths.py)"""
+    from ._pathconv import p_hive_convention, p_read_partitions, p_paths_to_cats_executed
+    p_paths(ctx)
+    p_hive_convention(ctx)
+    p_paths_to_cats_executed(ctx)
+    p_read_partitions(ctx)
